@@ -27,3 +27,8 @@ macro_rules! debug_assert { ($c:expr $(, $($t:tt)*)?) => { crate::vx_assert($c) 
 macro_rules! debug_assert_eq { ($a:expr, $b:expr $(, $($t:tt)*)?) => { crate::vx_assert($a == $b) }; }
 #[allow(unused_macros)]
 macro_rules! debug_assert_ne { ($a:expr, $b:expr $(, $($t:tt)*)?) => { crate::vx_assert($a != $b) }; }
+
+// `vec![x; n]` resolves to an allocator stand-in whose precondition carries the allocation budget (C14):
+// an allocation whose size is taken from untrusted input must be bounded by the bytes actually received.
+#[allow(unused_macros)]
+macro_rules! vec { ($e:expr; $n:expr) => { crate::vx_alloc_vec($e, $n) }; }
